@@ -9,8 +9,11 @@ FLOAT32_EPS = float(np.finfo(np.float32).eps)
 
 def gen_eof_case(rng, classes=("EOF", "ComplexEOF", "HilbertEOF", "ExtendedEOF"), solvers=("full",), small=False):
     cls = str(rng.choice(list(classes)))
-    shape_kind = str(rng.choice(["tall", "tall", "wide", "single", "square"]))
-    if shape_kind == "tall":
+    shape_kind = str(rng.choice(["tall", "tall", "wide", "single", "square", "verytall"]))
+    if shape_kind == "verytall":
+        ny, nx = int(rng.integers(1, 3)), int(rng.integers(2, 5))
+        n = ny * nx * int(rng.integers(10, 15))
+    elif shape_kind == "tall":
         ny, nx = int(rng.integers(1, 4)), int(rng.integers(1, 5))
         n = ny * nx + int(rng.integers(2, 25))
     elif shape_kind == "wide":
@@ -25,7 +28,7 @@ def gen_eof_case(rng, classes=("EOF", "ComplexEOF", "HilbertEOF", "ExtendedEOF")
             n = 3
     if cls in ("HilbertEOF", "ExtendedEOF"):
         n = max(n, 12)
-    if small:
+    if small and shape_kind != "verytall":
         n = min(n, 12)
     case = {
         "cls": cls,
@@ -41,6 +44,10 @@ def gen_eof_case(rng, classes=("EOF", "ComplexEOF", "HilbertEOF", "ExtendedEOF")
         "solver": str(rng.choice(list(solvers))),
         "offset": bool(rng.random() < 0.5),
     }
+    if case["solver"] != "full" and cls in ("ComplexEOF", "HilbertEOF"):
+        # complex input with a non-exact setting goes to scipy's iterative svds(lobpcg), whose convergence test is absolute: far from
+        # unit scale it stops early. That is the accuracy of the selected method (C01 claims no more), not a property of xeofs.
+        case["scale"] = 1.0
     if cls == "HilbertEOF":
         case["padding"] = str(rng.choice(["exp", "none"]))
     if cls == "ExtendedEOF":
